@@ -1,4 +1,5 @@
 import AvoVerif.Drv.Common
+import AvoVerif.Model.ISA
 namespace Avo.Drv.C17
 open Avo.Drv
 
@@ -13,7 +14,12 @@ def handle : Handler
     | d :: rest =>
       if d == "panic" then some "bad-panic"
       else if rest.all (· == d) then some "ok" else some "bad-nondeterministic"
+  | "isa" :: rest => do
+    -- distinct ISA names of a function's instructions (in first-occurrence order) → the function's ISA list
+    let (names, _) ← listOf strTok rest
+    let r := Avo.ISA.requiredISA names
+    some (joinSp (toString r.length :: r))
   | _ => none
 
-def handlers : List (String × Handler) := [("accept-det", handle)]
+def handlers : List (String × Handler) := [("accept-det", handle), ("isa", handle)]
 end Avo.Drv.C17
